@@ -689,6 +689,11 @@ def _pow(ex, args, n):
     ex.assume(z3.Implies(y == 0, r == 1))
     ex.assumed.add('libm: pow as uninterpreted function: positive for positive base, <= 1 / >= 1 by the sign of the '
                    'exponent for bases above 1, pow(x, 0) = 1')
+    xs = z3.simplify(x)
+    if z3.is_rational_value(xs) and xs.as_fraction() == 2:
+        # exact powers of two: pow(2, k) = 2^k for integral 0 <= k <= 62 (the result is representable; glibc returns it exactly)
+        ex.assume(z3.And([z3.Implies(y == k, r == 2 ** k) for k in range(63)]))
+        ex.assumed.add('libm: pow(2, k) = 2^k exactly for integral 0 <= k <= 62')
     return r
 
 
@@ -762,7 +767,14 @@ def _maxel(ex, args, n):
         v = v.f['_vec']
     if len(args) > 2:
         raise Unsupported('max_element with comparator')
-    if v.el[0] not in ('int', 'real'):
+    if v.el[0] in ('int', 'real'):
+        key = lambda i: z3.Select(v.data, i)
+    elif v.el[0] == 'struct' and v.el[1] == 'dsplib::cmplx_t':
+        # the algorithm compares with the element type's operator<, which for cmplx_t orders by |z|^2
+        # (contracts/types.py proves exactly that about cmplx_t::operator<)
+        key = lambda i: z3.Select(v.data.f['re'], i) * z3.Select(v.data.f['re'], i) + z3.Select(v.data.f['im'], i) * z3.Select(v.data.f['im'], i)
+        ex.assumed.add('std::max_element / min_element over cmplx_t: ordered by cmplx_t::operator< = comparison of |z|^2 (that operator is under contract)')
+    else:
         raise Unsupported('max_element over structs')
     ex.oblige('bounds', 'range', z3.And(a.off >= 0, a.off <= b.off, b.off <= v.len), n)
     j = z3.Int(ex.fresh_name('argext'))
@@ -770,13 +782,35 @@ def _maxel(ex, args, n):
     mx = callee_name(n) == 'max_element'
     ex.assume(z3.If(a.off == b.off, j == b.off, z3.And(
         j >= a.off, j < b.off,
-        z3.ForAll([k], z3.Implies(z3.And(k >= a.off, k < b.off),
-                                  (z3.Select(v.data, k) <= z3.Select(v.data, j)) if mx else
-                                  (z3.Select(v.data, k) >= z3.Select(v.data, j)))),
-        z3.ForAll([k], z3.Implies(z3.And(k >= a.off, k < j),
-                                  (z3.Select(v.data, k) < z3.Select(v.data, j)) if mx else
-                                  (z3.Select(v.data, k) > z3.Select(v.data, j)))))))
+        z3.ForAll([k], z3.Implies(z3.And(k >= a.off, k < b.off), (key(k) <= key(j)) if mx else (key(k) >= key(j)))),
+        z3.ForAll([k], z3.Implies(z3.And(k >= a.off, k < j), (key(k) < key(j)) if mx else (key(k) > key(j)))))))
     return PtrVal(a.path, j, a.el)
+
+
+@free('minmax_element')
+def _minmaxel(ex, args, n):
+    """std::minmax_element(first, last) over reals / ints: (first smallest, last largest); (first, first) for an empty range"""
+    a, b = ex.ev(args[0]), ex.ev(args[1])
+    if not (isinstance(a, PtrVal) and isinstance(b, PtrVal) and a.path is not None and a.path.same(b.path)):
+        raise Unsupported('minmax_element over non-contiguous range')
+    v = ex.read(a.path)
+    if isinstance(v, SVal) and set(v.f) == {'_vec'}:
+        v = v.f['_vec']
+    if len(args) > 2:
+        raise Unsupported('minmax_element with comparator')
+    if v.el[0] not in ('int', 'real'):
+        raise Unsupported('minmax_element over structs')
+    ex.oblige('bounds', 'range', z3.And(a.off >= 0, a.off <= b.off, b.off <= v.len), n)
+    lo, hi = z3.Int(ex.fresh_name('argmin')), z3.Int(ex.fresh_name('argmax'))
+    k = z3.Int(ex.fresh_name('k!mm'))
+    at = lambda i: z3.Select(v.data, i)
+    rng = lambda i: z3.And(i >= a.off, i < b.off)
+    ex.assume(z3.If(a.off == b.off, z3.And(lo == a.off, hi == a.off), z3.And(
+        rng(lo), rng(hi),
+        z3.ForAll([k], z3.Implies(rng(k), z3.And(at(k) >= at(lo), at(k) <= at(hi)))),
+        z3.ForAll([k], z3.Implies(z3.And(k >= a.off, k < lo), at(k) > at(lo))),
+        z3.ForAll([k], z3.Implies(z3.And(k > hi, k < b.off), at(k) < at(hi))))))
+    return SVal('std::pair', {'first': PtrVal(a.path, lo, a.el), 'second': PtrVal(a.path, hi, a.el)})
 
 
 def _iter_cmp(op):
@@ -993,8 +1027,8 @@ def _make_shared(ex, args, n):
         if d.get('kind') == 'CXXConstructorDecl' and d.get('_qual') == qual + '::' + cname and not d.get('_dependent'):
             from .calls import params_of
             ps = params_of(d)
-            if len(ps) != len(args):
-                continue
+            if len(args) > len(ps) or any(not [c_ for c_ in p_.get('inner', ()) if 'Comment' not in c_.get('kind', '')] for p_ in ps[len(args):]):
+                continue      # too many arguments, or a missing argument without a default
             ok = True
             for p_, a in zip(ps, args):
                 psh = ex.shapes.of_node(p_)
